@@ -14,6 +14,10 @@ NAMED = ["'\\N{LATIN SMALL LETTER A}'", "'\\N{latin small letter a}'", "'\\N{BOX
          "'\\N{SPACE}\\N{DIGIT ONE}'", "'a' 'b'", "'a' b'b'", "b'a' b'b'", "'a' \"b\" 'c'", "u'a' 'b'", "'a' u'b'", "r'\\n' '\\n'", "'''a\nb'''", "'a\\\nb'", "0x_f", "0o17", "0b101", "1_000.000_1e1_0", "1e309", "0777", "00", "0_0", "1__0", "1j", "1.5J", "0xFFFFFFFFFFFFFFFFFFFFFFFF", "123456789012345678901234567890"]
 
 
+DIGITS = ["1000000000000000111022302462515655000000", "0000000000000000000012500000000000000000", "9007199254740993000000000000000000000001",
+          "3141592653589793238462643383279502884197", "1797693134862315708145274237317043567981"]
+
+
 def literals():
     seen = set()
 
@@ -39,6 +43,19 @@ def literals():
         s = emit(s)
         if s is not None:
             yield s
+    # long mantissas: digit strings of 18-40 digits with the point at every position, plain, with an exponent, imaginary
+    for digits in DIGITS:
+        for total in (18, 20, 25, 33, 40):
+            d = digits[:total]
+            for point in range(0, total + 1):
+                body = d[:point] + "." + d[point:] if point else "0." + d
+                body = body.lstrip("0") if not body.startswith("0.") else body
+                if body.startswith("."):
+                    body = "0" + body
+                for tail in ("", "e5", "e-5", "e40", "e-300", "e300", "j", "e-20j"):
+                    s = emit(body + tail)
+                    if s is not None:
+                        yield s
 
 
 def bits(v):
